@@ -272,7 +272,7 @@ def w_same(m, r):
     return num_close(m, r, abs(float(m)))
 
 
-def compare_show(model, real, real_getw):
+def compare_show(model, real, real_getw, weights=True):
     """Returns None or a short description of the first difference. Exactness flag second."""
     if model['sys'] != real['sys']:
         return 'system %s vs %s' % (model['sys'], real['sys'])
@@ -293,7 +293,7 @@ def compare_show(model, real, real_getw):
         for k, (a, b) in enumerate(zip(md, rd)):
             if not lists_close(a, b, scale):
                 return 'axis %d: %r vs %r' % (k, [float(x) for x in a][:8], b[:8])
-    if not w_same(model['w'], real['w']):
+    if weights and not w_same(model['w'], real['w']):
         return 'stored weights %r vs %r' % (_short(model['w']), _short(real['w']))
     if real_getw is not None:
         rg = real_getw[1] if real_getw[0] == 'ok' else real_getw[1]
